@@ -105,6 +105,12 @@ func (e *Encoder) writeValue(val reflect.Value, tagType byte) error {
 		}
 
 		if tagType == TagByteArray {
+			if val.Kind() == reflect.Array {
+				// Bytes/UnsafePointer need a slice (or an addressable array): copy it
+				tmp := reflect.MakeSlice(reflect.SliceOf(val.Type().Elem()), n, n)
+				reflect.Copy(tmp, val)
+				val = tmp
+			}
 			var data []byte
 			switch val.Type().Elem().Kind() {
 			case reflect.Bool:
